@@ -58,6 +58,9 @@ CLAIMED = {
                  "name set (= all hash seeds); for every full assignment and every partial assignment sliced in 1-2 (3) steps the engine proves keyword == positional == dict == definition, "
                  "remaining dimensions == unassigned variables, and agreement on the completion.",
             "Bounded: 3 variables (4 thorough), domains 2-3, fixed linear expression strings with concrete coefficients; the set-order model picks one permutation of the name universe per run.", "4/C11", S),
+    "C16": ("S", "The DCOP structure (number of constraints, every scope) is the solver-chosen input of the three real graph builders; each explored path fixes one structure and the "
+                 "builders' output is compared with the definitions computed from the scopes; the frontier is exhausted, i.e. every structure in the bound is decided.",
+            "Structural property: no numeric reasoning is involved, the solver only carries the structure as a model (said plainly in DESIGN 4/C16). Bounded: n <= 4 (5), m <= 3, scopes <= 3.", "4/C16", S),
     "C12": ("S", "set_value_for_assignment, join and projection executed on symbolic matrix tables; the cell-wise algebraic definition is one "
                  "solver query per path, for every table value, assignment, scope pair and both argument forms.",
             "Bounded: 4 variables with domains 2,2,3,2, scopes of size <= 3, integer (and real, thorough) entries |c| <= 2^40; numpy float64 rounding above 2^53 not modelled.", "4/C12", S),
